@@ -233,9 +233,21 @@ def check(prop, tier, base_seed=None, workers=None, nruns=None, quiet=False):
     for sig, n in sorted(agg['known_hits'].items()):
         e = known[(prop, sig)]
         out.write('KNOWN-FINDING: property=%s %s %s (hit %d times)\n' % (prop, sig, e['what'], n))
+    confirmed = 0
     for v in agg['violations']:
         out.write('VIOLATION property=%s replay=%s\n' % (prop, v['replay']))
         out.write('  signature=%s oracle=%s ops=%d run_seed=%d\n' % (v['signature'], v['oracle'], v['ops'], v['run_seed']))
+        if confirmed < 3 and v['oracle'] != 'cross-process':
+            # the replay file is the report: confirm in a fresh interpreter that it fails the same way
+            confirmed += 1
+            try:
+                p = subprocess.run([PY, os.path.join(core.VERIF_DIR, 'check'), 'replay', v['replay']], cwd=core.VERIF_DIR,
+                                   capture_output=True, text=True, timeout=600)
+                ok = p.returncode == 1 and 'reproduced' in p.stdout
+            except Exception:
+                ok = False
+            out.write('  replay in a fresh interpreter: %s\n' % ('reproduced' if ok else 'DID NOT REPRODUCE (the run depended on state outside the plan; '
+                                                                 'treat as a harness isolation gap AND a violation)'))
     for e in errors:
         out.write('HARNESS-ERROR %s\n' % e)
     for e in agg['harness_errors'][:5]:
